@@ -1,4 +1,5 @@
 """May-panic analysis over MIR facts: explicit panics, Assert terminators, indexing, decimal overflow."""
+import os
 import re
 
 from mir import (Terms, parse_callee, trait_base, op_place, op_const, place_proj, show, subterms,
@@ -758,8 +759,8 @@ def _discharge_assert(F, b, tb, i, t, msg, ops):
         idx = t["ops"][1]
         p = op_place(idx)
         k = op_const(idx)
-        if p is not None and _bounds_guard(b, tb, i, p["l"]):
-            return "dominated by `index < len` on the same counter"
+        if p is not None and _bounds_guard(b, tb, i, p["l"], _len_container(tb.operand(t["ops"][0]))):
+            return "dominated by `index < len` of the indexed container on the same counter"
         kt = tb.operand(idx)
         if isinstance(kt, tuple) and kt and kt[0] == "int":
             # slice[K] in a function that receives the slice: the assert's own length operand names the container
@@ -772,6 +773,15 @@ def _discharge_assert(F, b, tb, i, t, msg, ops):
         if tys[0] == "?" and len(tys) > 1 and tys[1] not in ("?", ""):
             tys[0] = tys[1]     # both operands of a checked +/- have one type
         a, c = ops
+        if isinstance(a, tuple) and isinstance(c, tuple) and a[:1] == ("int",) and c[:1] == ("int",):
+            # both operands are compile-time constants (`MAX_LEN - 3`): the result is known
+            r = a[1] + c[1] if msg.startswith("Overflow(Add)") else a[1] - c[1]
+            ty = tys[0]
+            w = 64 if ty in ("usize", "isize") else _WIDTH.get(ty)
+            if w:
+                lo, hi = (-(2 ** (w - 1)), 2 ** (w - 1) - 1) if ty.startswith("i") else (0, 2 ** w - 1)
+                if lo <= r <= hi:
+                    return f"both operands are constants ({a[1]}, {c[1]}): the result {r} fits {ty}"
         if tys[0] == "usize":
             if msg.startswith("Overflow(Add)") and _find_position(a) is not None and _small_const_len(c) is not None and 0 <= _small_const_len(c) <= 4096:
                 return "position returned by str::find (≤ len ≤ isize::MAX) plus a small constant"
@@ -852,7 +862,7 @@ def _op_ty(b, o):
     return ""
 
 
-def _bounds_guard(b, tb, bb, idx_local):
+def _bounds_guard(b, tb, bb, idx_local, cont=None):
     name = b.local_name(idx_local)
     # the index operand is usually a fresh copy of the counter: find the counter it copies
     src = idx_local
@@ -861,10 +871,20 @@ def _bounds_guard(b, tb, bb, idx_local):
         q = op_place(defs[0][3]["rv"]["op"])
         if q is not None and not place_proj(q):
             src = q["l"]
-    return _dominated_by_lt_len_fresh(b, tb, bb, src)
+    return _dominated_by_lt_len_fresh(b, tb, bb, src, cont)
 
 
-def _dominated_by_lt_len_fresh(b, tb, bb, local):
+def _same_container(x, y):
+    """two container terms name the same allocation: equal after stripping references / derefs (Vec vs its slice)"""
+    def norm(t):
+        t = _strip_refs(t)
+        while isinstance(t, tuple) and t and t[0] == "call" and parse_callee(t[1])[2] in ("deref", "as_slice", "as_ref", "borrow") and t[2]:
+            t = _strip_refs(t[2][0])
+        return t
+    return norm(x) == norm(y)
+
+
+def _dominated_by_lt_len_fresh(b, tb, bb, local, cont=None):
     for s in b.reachable():
         t = b.term(s)
         if t["k"] != "switch":
@@ -890,6 +910,10 @@ def _dominated_by_lt_len_fresh(b, tb, bb, local):
                 continue
         rhs = tb.operand(rv["b"])
         if not _is_len(rhs):
+            continue
+        if cont is not None and not _same_container(_len_container(rhs), cont):
+            if os.environ.get("VERIF_DBG_CONT"):
+                print("DBG container mismatch", b.short, _len_container(rhs), "vs", cont)
             continue
         true_t = t["otherwise"]
         if not b.edge_dominates((s, true_t), bb):
@@ -1113,8 +1137,8 @@ def _discharge_index(F, b, tb, i, t, cont, ity, idx):
                                     return (f"constant index {n}: the closure is created in {pb.short} under a dominating "
                                             "length test on the captured container")
             return None
-        if p is not None and _bounds_guard(b, tb, i, p["l"]):
-            return "dominated by `index < len` on the same counter"
+        if p is not None and _bounds_guard(b, tb, i, p["l"], _strip_refs(tb.operand(t["args"][0]))):
+            return "dominated by `index < len` of the indexed container on the same counter"
         return None
     return None
 
